@@ -5,20 +5,26 @@ import json
 from fractions import Fraction
 
 from .. import core
-from ..core import Broken, Ctx, Violation
+from ..core import Broken, Ctx, TranslationError, Violation
 
 PROP_FILE = "Properties/C08.v"
 
 TRUSTED = [
+    "translator/c08.py (copy policy of Processor.__deepcopy__ / ModelGroup.__deepcopy__ and of the entry points that "
+    "assign on a copy, through the recognisers of translator/c06.py; range guards of the property setters of Geometry / "
+    "Characteristics / Environment / APDCharacteristics through the recognisers of translator/c12.py; fails closed); "
+    "CPython's copy.deepcopy for every class without a custom hook",
     "correspondence harness: harness/props/c08.py (generators, Gallina emission), harness/drivers/c08.py "
     "(settings tree obtained by introspection of the real objects: declared properties with/without setter, "
-    "vars(), dict items, model arguments, models of a group; hand table of the setters' range guards)",
+    "vars(), dict items, model arguments, models of a group; the setters' range guards are looked up in the regenerated table)",
     "modelled, not verified: Python attribute lookup order (data descriptor, instance dict, class attribute, "
     "__getattr__), str.split/find/slicing, ast.literal_eval on the literal subset",
 ]
 ASSUME = [
-    "key components are public names (no leading underscore, no dunder): the private backing fields that alias a "
-    "property (_row/row) and list indices (models.0) are outside the modelled key space",
+    "private names occur as LAST key component only, and only those that do not exist or are not the backing field of a "
+    "setting listed in the snapshot: a private backing field (_row / row, _phasing / phasing, Arguments._arguments) and a "
+    "list index (models.0 / <model name>) are a second key for a setting that already has one, and the tree model has no "
+    "sharing inside one processor; such keys are outside the modelled key space",
     "scalar leaves expose no attributes (int.real, str.upper ... are not settings and are not generated)",
     "APD avalanche_gain / pixel_reset_voltage / common_voltage are a documented coupled triple: when one of them is "
     "assigned, the triple and its derived caches are not compared",
@@ -98,6 +104,8 @@ def cv(j) -> str:
 def cguard(g) -> str:
     if g is None:
         return "GAny"
+    if g[0] == "ref":       # the guard the source states for this setter (Gen_C08.v)
+        return f"(guard_of src_setter_guards {core.cstr(g[1])} {core.cstr(g[2])})"
     if g[0] == "range":
         return f"(GRange {core.cz(g[1])} {core.cz(g[2])} {core.cbool(g[3])} {core.cbool(g[4])})"
     return f"(GAbove {core.cz(g[1])} {core.cbool(g[2])})"
@@ -295,9 +303,13 @@ def mutate_key(r, key: str, pipe):
     elif k == 6:
         parts = parts[:r.randrange(1, len(parts))]
         kind = "truncated"
-    elif k == 7:
+    elif k == 7 and r.random() < 0.5:
         parts = parts + [r.choice(["x", "value", "arguments", "enabled", "level", "0", "keys", "name"])]
         kind = "extended"
+    elif k == 7:   # a junk component somewhere inside the key (everything around it is right)
+        i = r.randrange(1, len(parts))
+        parts = parts[:i] + [r.choice(["x", "zz", "arguments", "value", "k", "item", parts[i - 1]])] + parts[i:]
+        kind = "inserted_component"
     elif k == 8:  # a prefix / extension of the model or argument name (string-prefix confusion)
         i = r.randrange(len(parts))
         c = parts[i]
@@ -310,6 +322,29 @@ def mutate_key(r, key: str, pipe):
         kind = "swapped_component"
     parts = [p for p in parts if not p.startswith("_")] or ["x"]
     return ".".join(parts), kind
+
+
+# private names as LAST component: names that do not exist (must be refused, nothing may be created) and existing
+# private attributes that are not the backing field of a setting listed in the snapshot (those would be a second key
+# for the same setting, which the tree model — no sharing inside one processor — does not represent)
+PRIVATE_EXISTING = {0: ["_numbytes", "_result", "_log"],                       # Processor
+                    1: ["_numbytes", "_output_dir", "_geometry", "_memory"],   # Detector
+                    2: ["_numbytes"],                                          # Geometry / Environment / Characteristics
+                    "group": ["_name", "_log"], "model": ["_func_name", "_func", "_arguments"]}
+
+
+def private_key(r, key: str):
+    parts = key.split(".")
+    if parts[0] == "detector":
+        depth = r.choice([0, 1, 2])
+        prefix, pool = parts[:depth], PRIVATE_EXISTING[depth]
+    else:
+        depth = r.choice([0, 2, 3, 4]) if len(parts) >= 5 else r.choice([0, 2, 3])
+        prefix = parts[:depth]
+        pool = {0: PRIVATE_EXISTING[0], 2: PRIVATE_EXISTING["group"], 3: PRIVATE_EXISTING["model"], 4: []}[depth]
+    if pool and r.random() < 0.6:
+        return ".".join(prefix + [r.choice(pool)]), "private_existing"
+    return ".".join(prefix + [r.choice(["_x", "_cache", "_value_", "_" + parts[-1] + "_", "__x"])]), "private_missing"
 
 
 def gen_set_cases(ctx: Ctx, budget: int):
@@ -335,6 +370,8 @@ def gen_set_cases(ctx: Ctx, budget: int):
             roll = r.random()
             if roll < 0.45:
                 k2, kind = key, "valid"
+            elif roll < 0.52:
+                k2, kind = private_key(r, key)
             else:
                 k2, kind = mutate_key(r, key, pipe)
             want_valid = r.random() < 0.8
@@ -375,10 +412,111 @@ def exhaustive_valid_cases(ctx: Ctx):
                               path="set", ignore=ignore))
             parts = key.split(".")
             parts[-1] = misspell(r, parts[-1])
+            while parts[-1].startswith("_"):       # private names are outside the modelled key space (ASSUME)
+                parts[-1] = misspell(r, key.split(".")[-1])
             cases.append(dict(op="set", det=det, pipe=pipe, key=".".join(parts), kind="misspelt_last", field=field, cls=cls,
                               value=jv(3), path=r.choice(["set", "override"]), ignore=[]))
+            if det == "ccd":
+                # everything right but one junk component before the last one (inside a dict for the items of a
+                # dict-valued argument): has, set and get must all refuse
+                parts = key.split(".")
+                parts.insert(len(parts) - 1, r.choice(["zz", "x", "item"]))
+                cases.append(dict(op="set", det=det, pipe=pipe, key=".".join(parts), kind="inserted_component", field=field,
+                                  cls=cls, value=jv(3), path="set", ignore=[]))
     return cases
 
+
+
+# --- derived processors (the copy a sweep / calibration / replace assigns on)
+
+VIAS = ["deepcopy", "replace", "create_new_processor", "build_processors", "update_processor"]
+
+
+def derive_value(r, via, field, guarded):
+    """a value the entry point can carry: update_processor hands over numpy floats, build_processors scalars"""
+    if via == "update_processor":
+        if guarded:
+            v = r.choice([x for x in VALID_VALUES[field] if isinstance(x, (int, float)) and not isinstance(x, bool)] or [1])
+            return jv(float(v))
+        return jv(float(r.choice([0, 1, 2, 0.5, 7, 12.25, -3])))
+    if guarded:
+        v = r.choice(VALID_VALUES[field])
+        if via == "build_processors" and isinstance(v, list):
+            v = 1
+        return jv(v) if field in APD_TRIPLE or r.random() < 0.6 or isinstance(v, list) else jv(as_text(r, v).strip())
+    if via == "build_processors":
+        return jv(r.choice([0, 1, 7, 0.5, True, False, "foo", "12", "0.25", "image.fits"]))
+    return jv(r.choice([0, 1, 7, 0.5, True, False, "foo", "12", "1e3", [1, 2], ["3", 0.5], (4, 5), "some_word"]))
+
+
+def derive_case(r, det, pipe, key, cls, field, kind, via):
+    guarded = cls in ("geo", "env", "char") and kind == "valid"
+    ignore = []
+    if det == "apd" and key.split(".")[-1] in APD_TRIPLE and key.startswith("detector.characteristics."):
+        ignore = [["detector", "characteristics", f] for f in APD_IGNORE]
+    return dict(op="derive", det=det, pipe=pipe, key=key, kind=kind, field=field, cls=cls, via=via,
+                value=derive_value(r, via, field, guarded), path=via, ignore=ignore)
+
+
+def gen_derive_cases(ctx: Ctx, budget: int):
+    """keys assigned on a derived processor: every class of setting (detector sub-objects, enabled and DISABLED models,
+    their flags, arguments, items of nested dict arguments), mostly valid (a refused assignment has nothing to leak)."""
+    r = ctx.rng("derive")
+    cases = []
+    n = 0
+    while len(cases) < budget:
+        det = ["ccd", "cmos", "mkid", "apd"][n % 4]
+        n += 1
+        pipe = gen_pipe(r)
+        vks = valid_keys(det, pipe)
+        by_cls = {}
+        for k in vks:
+            by_cls.setdefault(k[1], []).append(k)
+        # one key of every class present (so that no class is starved by the 14+ detector fields)
+        chosen = [r.choice(v) for _, v in sorted(by_cls.items())]
+        dis = [k for k in vks if k[1] in ("enabled", "arg", "dictitem") and not _model_enabled(pipe, k[0])]
+        if dis:
+            chosen.append(r.choice(dis))
+        for key, cls, field in chosen:
+            via = r.choice(VIAS)
+            if r.random() < 0.85:
+                k2, kind = key, "valid"
+            else:
+                k2, kind = mutate_key(r, key, pipe)
+                if not ok_str(k2):
+                    continue
+            cases.append(derive_case(r, det, pipe, k2, cls, field, kind, via))
+    return cases[:budget]
+
+
+def _model_enabled(pipe, key: str) -> bool:
+    parts = key.split(".")
+    if parts[0] != "pipeline" or len(parts) < 3:
+        return True
+    for m in pipe.get(parts[1], []):
+        if m["name"] == parts[2]:
+            return bool(m["enabled"])
+    return True
+
+
+def exhaustive_derive_cases(ctx: Ctx):
+    """every pipeline key of one rich pipeline (an enabled and a disabled model, dict- and list-valued arguments) and
+    one key per detector section, through every entry point."""
+    r = ctx.rng("exh_derive")
+    pipe = {"photon_collection": [dict(func="f.illumination", name="illumination", enabled=True,
+                                       arguments={"level": jv(1), "lst": jv([1, 2]),
+                                                  "d": {"t": "dictv", "v": {"k": jv(1), "w": jv("foo")}}}),
+                                  dict(func="f.shot_noise", name="shot_noise", enabled=False,
+                                       arguments={"type": jv("poisson"), "d": {"t": "dictv", "v": {"k": jv(2)}}})],
+            "charge_generation": [dict(func="f.cdm", name="cdm", enabled=False, arguments={"beta": jv(0.5)})]}
+    cases = []
+    keys = [k for k in valid_keys("ccd", pipe) if k[1] in ("enabled", "arg", "dictitem")]
+    keys += [("detector.geometry.row", "geo", "row"), ("detector.environment.temperature", "env", "temperature"),
+             ("detector.characteristics.quantum_efficiency", "char", "quantum_efficiency")]
+    for via in VIAS:
+        for key, cls, field in keys:
+            cases.append(derive_case(r, "ccd", pipe, key, cls, field, "valid", via))
+    return cases
 
 # --- literal texts
 
@@ -493,6 +631,16 @@ def gen_validate_cases(ctx: Ctx, budget: int):
             if roll < 0.55:
                 keys.append(key)
                 kinds.append("enabled_flag" if cls == "enabled" else "valid_" + cls)
+            elif roll < 0.67:
+                # something that exists but is not a setting: an object, a read-only property, a method
+                parts = key.split(".")
+                if parts[0] == "detector":
+                    k2 = r.choice([".".join(parts[:2]), ".".join(parts[:2] + ["to_dict"]), ".".join(parts[:2] + ["numbytes"])])
+                else:
+                    k2 = r.choice([".".join(parts[:3]), ".".join(parts[:3] + ["name"]), ".".join(parts[:3] + ["arguments"]),
+                                   ".".join(parts[:2])])
+                keys.append(k2)
+                kinds.append("nonsetting")
             else:
                 k2, kind = mutate_key(r, key, pipe)
                 if not ok_str(k2):
@@ -501,14 +649,25 @@ def gen_validate_cases(ctx: Ctx, budget: int):
                 kinds.append(kind)
         if not keys:
             continue
-        cases.append(dict(op="validate", det=det, pipe=pipe, keys=keys, kinds=kinds, step_enabled=[True] * len(keys)))
+        # a step that is switched off is not part of the sweep, whatever its key (only enabled steps reach Coq)
+        c = dict(op="validate", det=det, pipe=pipe, keys=keys, kinds=kinds,
+                 step_enabled=[r.random() < 0.8 for _ in keys])
+        if len(cases) % 3 == 0:
+            # also run the sweep itself (every model is the probe `verif_probes_c08.record`): with a bad key among the
+            # steps it must fail before any model executes
+            c["run"] = True
+            c["mode"] = r.choice(["product", "sequential"])
+            c["pipe"] = {g: [dict(m, func="verif_probes_c08.record") for m in ms] for g, ms in pipe.items()}
+        cases.append(c)
     return cases
 
 
 # ------------------------------------------------------------------------------------------ Coq emission
 
-HEADER = ("From Coq Require Import ZArith List String.\nFrom PyxelV Require Import Model.Keys.\n"
-          "Import ListNotations.\nOpen Scope string_scope.\n")
+HEADER = ("From Coq Require Import ZArith List String.\nFrom PyxelV Require Import Model.Keys Model.KeysWorld.\n"
+          "From PyxelGen Require Import Gen_C08.\nImport ListNotations.\nOpen Scope string_scope.\n")
+WHEADER = ("From Coq Require Import ZArith List String.\nFrom PyxelV Require Import Model.Keys Model.KeysWorld.\n"
+           "From PyxelGen Require Import Gen_C08.\nImport ListNotations.\nOpen Scope string_scope.\n")
 
 
 class Pool:
@@ -565,6 +724,28 @@ def emit_set_file(pairs) -> str:
             "Eval vm_compute in report cases.\n")
 
 
+
+def emit_world_file(pairs) -> str:
+    trees = []
+    for _, o in pairs:
+        trees += [o["before"], o["after"], o["orig_after"], o["sib_before"], o["sib_after"], o["later"]]
+    pool = Pool(trees)
+    items = []
+    for c, o in pairs:
+        ign = core.clist(core.clist(core.cstr(x) for x in p) for p in c.get("ignore", []))
+        shared = core.clist(core.clist(core.cstr(x) for x in p) for p in o["shared"])
+        items.append(
+            f"{{| w_k := {{| c_tree := {pool.tree(o['before'])};\n     c_key := {ckey(c['key'])}; c_raw := {cv(c['value'])}; c_ignore := {ign};\n"
+            f"     o_has := {cres(o['has'], core.cbool)}; o_set := {core.copt(o['set'], str)};\n"
+            f"     o_after := {pool.tree(o['after'])};\n     o_get := {cres(o['get'], cv)} |}};\n"
+            f"   w_via := {core.cstr(c['via'])}; w_orig_after := {pool.tree(o['orig_after'])};\n"
+            f"   w_sib_before := {pool.tree(o['sib_before'])}; w_sib_after := {pool.tree(o['sib_after'])};\n"
+            f"   w_later := {pool.tree(o['later'])}; w_shared := {shared} |}}")
+    body = ";\n  ".join(items)
+    return (WHEADER + "\n".join(pool.defs) + f"\nDefinition cases : list wcase := [\n  {body}\n].\n"
+            "Eval vm_compute in wreport src_copy_policy src_copy_sites cases.\n")
+
+
 def emit_eval_file(triples) -> str:
     items = []
     for t, exp, o in triples:
@@ -582,16 +763,25 @@ def emit_validate_file(pairs) -> str:
     items = []
     for c, o in pairs:
         keys = [k for k, en in zip(c["keys"], c["step_enabled"]) if en]
+        ran = o.get("ran")
+        if ran is None:
+            cran = "None"
+        elif "ok" in ran:
+            cran = f"(Some (None, {core.cnat(ran['ok'])}))"
+        else:
+            cran = f"(Some (Some {ran['raise']}, {core.cnat(ran['calls'])}))"
         items.append(f"{{| v_tree := {pool.tree(o['before'])}; v_keys := {core.clist(core.cstr(k) for k in keys)}; "
-                     f"v_obs := {core.copt(o['validate'], str)} |}}")
+                     f"v_obs := {core.copt(o['validate'], str)}; v_ran := {cran} |}}")
     body = ";\n  ".join(items)
     return (HEADER + "\n".join(pool.defs) + f"\nDefinition cases : list vcase := [\n  {body}\n].\n"
-            "Eval vm_compute in v_mismatches cases.\nEval vm_compute in v_violations 1 cases.\nEval vm_compute in v_violations 2 cases.\n")
+            "Eval vm_compute in v_mismatches cases.\nEval vm_compute in v_violations 1 cases.\nEval vm_compute in v_violations 2 cases.\n"
+            "Eval vm_compute in v_violations 3 cases.\n")
 
 
 # ------------------------------------------------------------------------------------------ classification (signature only)
 
-CLAUSES = {1: "unresolved_rejected", 2: "failed_set_changes", 3: "frame", 4: "set_get", 5: "has_sound"}
+CLAUSES = {1: "unresolved_rejected", 2: "failed_set_changes", 3: "frame", 4: "set_get", 5: "has_sound",
+           6: "derived_source_changed", 7: "derived_sibling_changed", 8: "derived_later_copy_differs", 9: "get_sound"}
 
 
 def walk_info(tree, key: str):
@@ -633,18 +823,46 @@ def walk_info(tree, key: str):
     return landing, "missing"
 
 
+
+def _flat(t, pre=()):
+    if "leaf" in t:
+        return {pre: json.dumps(t["leaf"], sort_keys=True)}
+    out = {pre: "node:" + t["node"]}
+    for n, mk, g, sub in t["members"]:
+        out.update(_flat(sub, pre + (n + ":" + mk,)))
+    return out
+
+
+def _diff_trees(a, b):
+    """keys whose entry differs (reporting only; the decision was taken in Coq)"""
+    fa, fb = _flat(a), _flat(b)
+    return sorted(".".join(x.split(":")[0] for x in k) for k in set(fa) | set(fb) if fa.get(k) != fb.get(k))
+
+
 def set_violation(c, o, clause_n) -> Violation:
     landing, target = walk_info(o["before"], c["key"])
     clause = CLAUSES[clause_n]
     sig = dict(clause=clause, landing=landing, target=target)
-    case = {k: c[k] for k in ("op", "det", "pipe", "key", "value", "path", "ignore", "kind")}
+    case = {k: c[k] for k in ("op", "det", "pipe", "key", "value", "path", "ignore", "kind", "via", "field", "cls") if k in c}
+    if clause_n in (6, 7, 8):
+        sig["shared"] = "yes" if o.get("shared") else "no"
+        obs = dict(set=o["set"], shared_objects=o.get("shared"),
+                   changed=_diff_trees(o["before"], {6: o["orig_after"], 7: o["sib_after"], 8: o["later"]}[clause_n])[:6])
+        return Violation(clause=clause, case=case, observed=obs,
+                         expected={6: "the processor the copy was derived from keeps every setting",
+                                   7: "every other copy keeps every setting",
+                                   8: "a copy derived afterwards has the settings of its source"}[clause_n],
+                         what=f"{c['key']!r} := {json.dumps(c['value'])[:60]} assigned on a copy made by {c['via']} of a "
+                              f"{c['det']} processor: {clause}; differs at {obs['changed'][:3]}; objects shared with the copy: "
+                              f"{o.get('shared')}", sig=sig)
     return Violation(clause=clause, case=case,
                      observed=dict(has=o["has"], set=o["set"], get=o["get"]),
                      expected={1: "has() does not confirm the key, so the assignment must raise",
                                2: "a refused assignment changes no setting",
                                3: "exactly the addressed existing setting takes the denoted value; no attribute appears or disappears",
                                4: "get(key) returns the assigned value",
-                               5: "has() confirms only existing paths"}[clause_n],
+                               5: "has() confirms only existing paths",
+                               9: "get() answers only for a key whose whole path exists"}[clause_n],
                      what=f"Processor.{c['path']}({c['key']!r}, {json.dumps(c['value'])[:80]}) on a {c['det']} processor: {clause} "
                           f"(key lands on {landing}, last component names: {target})", sig=sig)
 
@@ -683,7 +901,7 @@ def leg_set(ctx: Ctx, cases, tag="s"):
                                          f"model and implementation differ on {part} for key {c['key']!r}",
                                          dict(case={k: c[k] for k in ("det", "pipe", "key", "value", "path", "kind")},
                                               observed=dict(has=o["has"], set=o["set"], get=o["get"]))))
-            for n in range(1, 6):
+            for n in (1, 2, 3, 4, 5, 9):
                 if mask & (1 << (n - 1)):
                     ctx.violations.append(set_violation(c, o, n))
     for c, o in pairs:
@@ -694,6 +912,73 @@ def leg_set(ctx: Ctx, cases, tag="s"):
         ctx.dist("set_outcome", o["set"] or "ok")
         ctx.dist("entry_point", c["path"])
     return pairs, nm
+
+
+
+def leg_derive(ctx: Ctx, cases, tag="w"):
+    obs = core.run_driver(ctx, "c08", cases, workers=8)
+    pairs = []
+    for c, o in zip(cases, obs):
+        if "crash" in o or "driver_error" in o:
+            ctx.broken.append(Broken("correspondence", "implementation driver failed (derived processor)", str(o)[:600], c))
+            continue
+        pairs.append((c, o))
+    per = 30
+    files = {f"{tag}_{k // per:03d}": emit_world_file(pairs[k:k + per]) for k in range(0, len(pairs), per)}
+    res = core.coq_eval_many(ctx, files, timeout=900, par=8)
+    nm = 0
+    leads = []
+    for k, name in enumerate(sorted(files)):
+        ok, evals, se = res[name]
+        chunk = pairs[k * per:(k + 1) * per]
+        if not ok or len(evals) != 1:
+            ctx.broken.append(Broken("correspondence", f"case file {name}.v did not evaluate", core.tail(se, 15)))
+            continue
+        codes = core.parse_int_list(evals[0])
+        if len(codes) != len(chunk):
+            ctx.broken.append(Broken("correspondence", f"case file {name}.v: wrong report length", evals[0][:200]))
+            continue
+        for (c, o), code in zip(chunk, codes):
+            mk, mask = code % 10, code // 10
+            if mk:
+                nm += 1
+                part = {1: "has", 2: "set outcome", 3: "settings of the copy after", 4: "get after",
+                        5: "settings of the source after an assignment on its copy",
+                        6: f"objects shared between a processor and its copies (implementation shares {o['shared']})",
+                        7: "settings of a fresh copy"}.get(mk, "?")
+                ctx.broken.append(Broken("correspondence", "Model/KeysWorld.v vs derived processors",
+                                         f"model and implementation differ on {part} for key {c['key']!r} via {c['via']}",
+                                         dict(case={k: c[k] for k in ("det", "pipe", "key", "value", "via", "kind")},
+                                              observed=dict(has=o["has"], set=o["set"], get=o["get"], shared=o["shared"]))))
+                if o["shared"]:
+                    leads.append((c, o))
+            for n in range(1, 10):
+                if mask & (1 << (n - 1)):
+                    ctx.violations.append(set_violation(c, o, n))
+    for c, o in pairs:
+        ctx.count("evaluations")
+        ctx.dist("derive_via", c["via"])
+        ctx.dist("derive_key_class", c["cls"] + ("" if c["kind"] == "valid" else "/" + c["kind"]))
+        ctx.dist("derive_target_model", "detector" if not c["key"].startswith("pipeline.") else
+                 ("enabled_model" if _model_enabled(c["pipe"], c["key"]) else "disabled_model"))
+        ctx.dist("derive_outcome", o["set"] or "ok")
+        if o.get("internal"):
+            ctx.dist("derive_internal_sharing", "yes")
+    return pairs, nm, leads
+
+
+def directed_derive_cases(ctx: Ctx, leads, cap=60):
+    """objects were seen shared between a processor and its copy: assign, on a copy, every setting below them"""
+    r = ctx.rng("directed")
+    out, seen = [], set()
+    for c, o in leads:
+        for sp in o["shared"]:
+            pre = ".".join(sp) + "."
+            for key, cls, field in valid_keys(c["det"], c["pipe"]):
+                if key.startswith(pre) and (c["det"], key, json.dumps(c["pipe"], sort_keys=True)) not in seen and len(out) < cap:
+                    seen.add((c["det"], key, json.dumps(c["pipe"], sort_keys=True)))
+                    out.append(derive_case(r, c["det"], c["pipe"], key, cls, field, "valid", c["via"]))
+    return out
 
 
 def leg_eval(ctx: Ctx, texts, tag="e"):
@@ -762,7 +1047,7 @@ def leg_validate(ctx: Ctx, cases, tag="v"):
     for k, name in enumerate(sorted(files)):
         ok, evals, se = res[name]
         chunk = pairs[k * per:(k + 1) * per]
-        if not ok or len(evals) != 3:
+        if not ok or len(evals) != 4:
             ctx.broken.append(Broken("correspondence", f"case file {name}.v did not evaluate", core.tail(se, 15)))
             continue
         for i in core.parse_int_list(evals[0]):
@@ -770,24 +1055,34 @@ def leg_validate(ctx: Ctx, cases, tag="v"):
             ctx.broken.append(Broken("correspondence", "Model/Keys.v validate_steps vs Observation.validate_steps",
                                      f"model and implementation differ on steps {c['keys']}: implementation gives {o['validate']}",
                                      dict(case={k: c[k] for k in ("det", "pipe", "keys")}, observed=o["validate"])))
-        for n, clause in ((1, "validate_silent"), (2, "validate_refused")):
+        for n, clause in ((1, "validate_silent"), (2, "validate_refused"), (3, "sweep_ran")):
             for i in core.parse_int_list(evals[n]):
                 c, o = chunk[i]
                 ctx.violations.append(validate_violation(ctx, c, o, clause))
     for c, o in pairs:
         ctx.count("evaluations")
+        if o.get("ran") is not None:
+            ctx.dist("sweep_run", c.get("mode", "product") + ":" + ("completed" if "ok" in o["ran"] else
+                                                                     f"{o['ran']['raise']} after {min(o['ran']['calls'], 1)}+ model calls"
+                                                                     if o["ran"]["calls"] else o["ran"]["raise"] + " before any model"))
         ctx.dist("validate_outcome", o["validate"] or "accepted")
-        for kd in c["kinds"]:
-            ctx.dist("step_key_kind", kd)
+        for kd, en in zip(c["kinds"], c["step_enabled"]):
+            ctx.dist("step_key_kind", kd if en else "(step disabled) " + kd)
     return pairs
 
 
 def validate_violation(ctx, c, o, clause) -> Violation:
+    c = dict(c, keys=[k for k, en in zip(c["keys"], c["step_enabled"]) if en],
+             kinds=[k for k, en in zip(c["kinds"], c["step_enabled"]) if en], all_keys=c["keys"], all_kinds=c["kinds"])
     only_flag = all(k == "enabled_flag" or k.startswith("valid_") for k in c["kinds"]) and "enabled_flag" in c["kinds"]
     sig = dict(clause=clause, error=o["validate"] or "none")
     if clause == "validate_refused":
         sig["step_kind"] = "enabled_flag" if only_flag else "+".join(sorted(set(c["kinds"])))
     else:
+        if clause == "sweep_ran":
+            ran = o.get("ran") or {}
+            sig = dict(clause=clause, mode=c.get("mode", "product"),
+                       outcome="completed" if "ok" in ran else "raised_after_models_ran")
         # which of the accepted keys is not an enabled model's declared setting
         bad = set()
         for k in c["keys"]:
@@ -801,7 +1096,14 @@ def validate_violation(ctx, c, o, clause) -> Violation:
                 if en is False:
                     bad.add("disabled_model")
         sig["offending"] = "+".join(sorted(bad)) or "unclassified"
-    return Violation(clause=clause, case={k: c[k] for k in ("op", "det", "pipe", "keys", "kinds", "step_enabled")},
+    case = {k: c[k] for k in ("op", "det", "pipe", "step_enabled", "run", "mode") if k in c}
+    case["keys"], case["kinds"] = c["all_keys"], c["all_kinds"]
+    if clause == "sweep_ran":
+        return Violation(clause=clause, case=case, observed=dict(validate=o["validate"], ran=o.get("ran")),
+                         expected="a sweep with a key that is not an existing setting of an enabled model fails before any model executes",
+                         what=f"Observation.run_pipelines ({c.get('mode', 'product')}) on steps {c['keys']}: {o.get('ran')} "
+                              f"(validate_steps: {o['validate'] or 'accepted'})", sig=sig)
+    return Violation(clause=clause, case=case,
                      observed=o["validate"],
                      expected="an error iff some swept key is not an existing setting or belongs to a disabled model",
                      what=f"Observation.validate_steps on steps {c['keys']}: {clause} (implementation: {o['validate'] or 'accepted'})",
@@ -834,10 +1136,23 @@ def new_violations(ctx: Ctx):
 def run(ctx: Ctx):
     ctx.trusted += TRUSTED
     ctx.assumptions += ASSUME
-    core.proof_leg(ctx, {}, PROP_FILE)
+    from translator import c08 as tr
+    try:
+        gen = {"Gen_C08.v": tr.translate(ctx.repo)}
+    except TranslationError as ex:
+        ctx.broken.append(Broken("translation", "translator/c08.py (copy policy of derived processors, setter guards)", str(ex)))
+        ctx.log(f"translation failed (continuing with the fallback table): {ex}")
+        gen = {"Gen_C08.v": tr.FALLBACK}
+    core.proof_leg(ctx, gen, PROP_FILE)
 
     set_cases = exhaustive_valid_cases(ctx) + gen_set_cases(ctx, ctx.budget(int(__import__('os').environ.get('C08_N', 600)), 4000))
     pairs, nm = leg_set(ctx, set_cases)
+    dcases = exhaustive_derive_cases(ctx) + gen_derive_cases(ctx, ctx.budget(240, 1600))
+    dpairs, dnm, leads = leg_derive(ctx, dcases)
+    nm += dnm
+    if leads and not new_violations(ctx):
+        _, dnm2, _ = leg_derive(ctx, directed_derive_cases(ctx, leads), tag="wd")
+        nm += dnm2
     texts = gen_eval_cases(ctx, ctx.budget(900, 6000))
     triples = leg_eval(ctx, texts)
     vcases = gen_validate_cases(ctx, ctx.budget(240, 1500))
@@ -845,11 +1160,15 @@ def run(ctx: Ctx):
 
     distinct = {(c["det"], c["key"], json.dumps(c["value"], sort_keys=True), json.dumps(c["pipe"], sort_keys=True)) for c, o in pairs
                 if c["kind"] != "valid" or o["set"] is None}
-    ctx.cov["distinct_nontrivial"] = len(distinct) + len({t for t, _, _ in triples}) + len(vpairs)
+    ddistinct = {(c["det"], c["key"], c["via"], json.dumps(c["value"], sort_keys=True), json.dumps(c["pipe"], sort_keys=True))
+                 for c, o in dpairs if o["set"] is None}
+    ctx.cov["distinct_nontrivial"] = len(distinct) + len(ddistinct) + len({t for t, _, _ in triples}) + len(vpairs)
     ctx.cov["rule"] = ("assignments: distinct (detector, pipeline, key, value) where the key is misspelt/truncated/extended/"
                        "swapped or the assignment succeeds (a full settings snapshot is compared before/after); "
+                       "derived processors: distinct (detector, pipeline, key, value, entry point) whose assignment on the copy "
+                       "succeeds (source, sibling copy, later copy and object identities are compared); "
                        "literal texts: distinct texts; validate_steps: every generated step list")
-    ctx.cov["traces_validated_against_impl"] = len(pairs) + len(triples) + len(vpairs)
+    ctx.cov["traces_validated_against_impl"] = len(pairs) + len(dpairs) + len(triples) + len(vpairs)
     ctx.cov["disagreements_checked"] = nm
     ctx.cov["exhaustive"] = "every geometry/environment/characteristics field of the 4 detector types, valid and misspelt"
     for c, o in pairs[:3]:
@@ -858,6 +1177,14 @@ def run(ctx: Ctx):
         ctx.sample(dict(text=t, result=rr))
     for c, o in vpairs[:1]:
         ctx.sample(dict(steps=c["keys"], validate=o["validate"]))
+    # core.finish prints at most five distinct signatures: interleave the clauses so that they are five different ones
+    seen, order = {}, []
+    for v in ctx.violations:
+        key = json.dumps(v.sig, sort_keys=True)
+        if key not in seen:
+            seen[key] = len([1 for k in order if k[1] == v.clause])
+            order.append((key, v.clause))
+    ctx.violations.sort(key=lambda v: seen[json.dumps(v.sig, sort_keys=True)])
     (ctx.build / "broken.json").write_text(json.dumps([dict(kind=b.kind, name=b.name, detail=b.detail, case=b.case)
                                                        for b in ctx.broken], indent=1, default=str))
     (ctx.build / "violations.json").write_text(json.dumps([dict(sig=v.sig, what=v.what) for v in ctx.violations], indent=1))
@@ -872,6 +1199,11 @@ def search(ctx: Ctx):
     r.shuffle(ctx2_cases)
     keep_broken = list(ctx.broken)
     leg_set(ctx, ctx2_cases, tag="ss")
+    dc = gen_derive_cases(ctx, 900)
+    r.shuffle(dc)
+    _, _, leads = leg_derive(ctx, dc, tag="sw")
+    if leads:
+        leg_derive(ctx, directed_derive_cases(ctx, leads, cap=200), tag="swd")
     leg_eval(ctx, gen_eval_cases(ctx, 3000), tag="se")
     leg_validate(ctx, gen_validate_cases(ctx, 600), tag="sv")
     ctx.broken[:] = keep_broken + [b for b in ctx.broken if b not in keep_broken][:5]
@@ -886,7 +1218,24 @@ def replay(ctx: Ctx, rp: dict) -> int:
         return 1
     core.ensure_lib(ctx, targets=core.lib_targets_of([(core.THEORIES / PROP_FILE).read_text()]))
     print("case:", json.dumps(case)[:1500])
-    if case["op"] == "set":
+    from translator import c08 as tr
+    gen = ctx.build / "gen"
+    gen.mkdir(parents=True, exist_ok=True)
+    try:
+        text = tr.translate(ctx.repo)
+    except TranslationError:
+        text = tr.FALLBACK
+    (gen / "Gen_C08.v").write_text(text)
+    core.coqc(ctx, gen / "Gen_C08.v", [(gen, "PyxelGen")])
+    if case["op"] == "derive":
+        o = core.run_driver(ctx, "c08", [case], workers=1)[0]
+        print("implementation now: set =", o.get("set"), " get =", o.get("get"), " shared objects =", o.get("shared"))
+        print("  source changed at:", _diff_trees(o["before"], o["orig_after"])[:6])
+        print("  sibling copy changed at:", _diff_trees(o["sib_before"], o["sib_after"])[:6])
+        print("  later copy differs from the source at:", _diff_trees(o["before"], o["later"])[:6])
+        ok, evals, se = core.coq_eval(ctx, "replay", emit_world_file([(case, o)]))
+        bad = ok and core.parse_int_list(evals[0])[0] // 10 != 0
+    elif case["op"] == "set":
         o = core.run_driver(ctx, "c08", [case], workers=1)[0]
         print("implementation now: has =", o.get("has"), " set =", o.get("set"), " get =", o.get("get"))
         ok, evals, se = core.coq_eval(ctx, "replay", emit_set_file([(case, o)]))
@@ -902,7 +1251,7 @@ def replay(ctx: Ctx, rp: dict) -> int:
         o = core.run_driver(ctx, "c08", [case], workers=1)[0]
         print("implementation now:", o.get("validate"))
         ok, evals, se = core.coq_eval(ctx, "replay", emit_validate_file([(case, o)]))
-        bad = ok and (core.parse_int_list(evals[1]) != [] or core.parse_int_list(evals[2]) != [])
+        bad = ok and any(core.parse_int_list(evals[n]) != [] for n in (1, 2, 3))
     if not ok:
         print("case file did not evaluate:", core.tail(se, 10))
         return 1
@@ -933,23 +1282,29 @@ META = dict(
     level_text=(
         "Coq theorems, for ALL settings trees, keys and values, over an executable model of _get_obj_att / Processor.has / "
         "get / set (objects with declared properties, setter guards and an open-__dict__ flag, dicts, Arguments refusing "
-        "unknown names, model groups resolving by model name): set-then-get, frame (shape and every other key unchanged) and "
-        "rejection of unconfirmed keys are each stated in full, refuted by proved witnesses where the code breaks them "
-        "(misspelt last component on an open object creates an attribute; truncated key replaces an object; dict items and "
-        "shadowed argument names do not read back) and proved in their strongest true restriction, with the exact condition "
-        "under which the defect happens; validate_steps rejects an undeclared / disabled-model key at any position of the "
-        "step list; eval_entry round trip on scalar literals. The model is tied to the code by evaluating it inside Coq "
-        "against the real Processor on full before/after settings snapshots (all fields of the 4 detector types, every "
-        "group/model/argument/flag, vars() of every object) for valid, misspelt, truncated and extended keys, against the "
-        "real eval_entry on generated texts and the real Observation.validate_steps; the implementation's observations are "
-        "judged inside Coq against the specification. That the implementation behaves like the model is established by this "
-        "correspondence, i.e. by testing."),
+        "unknown names, model groups resolving by model name): set-then-get, frame (an accepted assignment addressed an "
+        "existing settable setting and every key that does not extend it reads as before; nothing appears or disappears), "
+        "rejection of every key that has() does not confirm — all three proved in full after the repairs of C08-F7a/b/c, "
+        "C08-get-dict, C08-get-shadowed; derived processors (the copy a sweep, a calibration or Processor.replace assigns "
+        "on): under the copy policy regenerated from Processor.__deepcopy__ / ModelGroup.__deepcopy__ / the four copying "
+        "entry points no object is shared and the source keeps its whole settings tree; validate_steps rejects an "
+        "undeclared / disabled-model key at any position and accepts every admitted key, the enabled flag included "
+        "(C08-enabled-sweep repaired; accepting non-settings is still open and refuted by a proved witness); eval_entry "
+        "round trip for all integers, mantissa-e-exponent decimals, booleans, None and bare words. The model is tied to "
+        "the code by a fail-closed translator (copy policy) and by evaluating it inside Coq against the real Processor on "
+        "full before/after settings snapshots (all fields of the 4 detector types, every group/model/argument/flag, "
+        "vars() of every object) for valid, misspelt, truncated and extended keys — on the processor itself and on copies "
+        "derived through five real entry points, with source, sibling copy, later copy and object identities compared — "
+        "against the real eval_entry on generated texts and the real Observation.validate_steps; the implementation's "
+        "observations are judged inside Coq against the specification. That the implementation behaves like the model is "
+        "established by this correspondence, i.e. by testing."),
     level_note=(
-        "Trusted: Coq kernel + vm_compute; the correspondence harness and driver (introspection of the objects into the "
-        "settings tree, hand table of setter range guards); Python attribute-lookup semantics as modelled. Assumes public key "
-        "components (no private aliases, no list indices), scalar leaves without attributes, the APD coupled triple not compared, "
-        "the literal subset stated in the evidence. The literal round trip is proved for scalar literals only; lists/tuples are "
-        "covered by correspondence."),
-    technique="Coq proof over a settings-tree model + in-Coq correspondence/spec evaluation against Processor, eval_entry, validate_steps",
+        "Trusted: Coq kernel + vm_compute; translator/c08.py (+ the recognisers of translator/c06.py and c12.py); the correspondence "
+        "harness and driver (introspection of the objects into the settings tree); "
+        "Python attribute-lookup semantics and copy.deepcopy as modelled. Assumes public key components (no private "
+        "aliases, no list indices), scalar leaves without attributes, the APD coupled triple not compared, the literal "
+        "subset stated in the evidence. Quoted strings, lists and tuples of literals are covered by correspondence only."),
+    technique="Coq proof over a settings-tree model + copy-policy translator + in-Coq correspondence/spec evaluation against "
+              "Processor (and derived processors), eval_entry, validate_steps",
     design_ref="DESIGN.md section 6, C08",
 )
